@@ -414,7 +414,7 @@ def run(ctx):
             "start()'s Deferred fires twice (AlreadyCalledError) or never")
 
     # ---- R5 shutdown order
-    r = ctx.rule("R5", "shutdown: flag first, wait for the processor, commit when a group is set, then stop, then fire", 10,
+    r = ctx.rule("R5", "shutdown: flag first, wait for the processor, commit when a group is set, then stop, then fire", 13,
                  "B")
     csd = ctx.cfg(shutdown)
     flag = [n for n in csd.nodes if node_writes_attr(n, "_shuttingdown") and isinstance(node_assign_value(
@@ -448,6 +448,10 @@ def run(ctx):
     r.check(bool(commits) and all(known_falsy(fcas[n.id], "self.consumer_group") for n in nog) and all(
         not known_falsy(fcas[n.id], "self.consumer_group") for n in commits), "%s#commit-iff-group" % cas.qname,
         "shutdown does not commit exactly when a consumer group is configured", where(cas, cas.node))
+    r.check(bool(commits) and all(("self._stopping", False) in fcas[n.id] and any(a_ in fcas[n.id] for a_ in (
+        ("self._start_d is None", False), ("self._start_d", True), ("not self._start_d", False))) for n in commits),
+        "%s#commit-only-while-started" % cas.qname, "the shutdown step commits without having tested that the consumer is still started and "
+        "not being stopped", where(cas, cas.node), "a consumer that was stopped while shutdown() waited sends an OffsetCommit")
     regs = [g for g in registrations(cas, prog) if g["cb"] is not None and prog.resolve_callable(cas, g["cb"]) is ok_s]
     r.check(bool(regs) and all(g["kind"] in ("cb", "cbs") for g in regs), "%s#success-after-commit" % cas.qname,
             "the shutdown success step is not the on-success continuation of commit()", where(cas, cas.node))
@@ -513,6 +517,12 @@ def run(ctx):
                 if call_name(c) == "stop" and call_recv(c) == "self":
                     ff_ = ff_ or ctx.facts(f)
                     n_st += 1
+                    started_ = any(a_ in ff_[n.id] for a_ in (("self._start_d is None", False), ("self._start_d", True), ("not self._start_d", False)))
+                    r.check(started_, "%s#stop-only-while-started" % f.qname,
+                            "a handler calls stop() without having tested that the consumer is still started", where(f, c),
+                            "the application stopped the consumer while the handler's Deferred was pending (e.g. from its errback on the "
+                            "start Deferred, after the processor failed): RestopError inside the callback chain - the Deferred returned by "
+                            "shutdown() never fires and `_shuttingdown` stays set")
                     r.check(("self._stopping", False) in ff_[n.id], "%s#stop-not-re-entered" % f.qname,
                             "a handler calls stop() without having tested that no stop() is in progress", where(f, c),
                             "stop() cancels the Deferred this handler is chained to (the processor the shutdown waits for); the handler "
@@ -542,7 +552,19 @@ def run(ctx):
     stops = [n.id for n in cok.nodes if any(call_name(c) == "stop" and call_recv(c) == "self" for c in n.calls())]
     fire = [n for n in cok.nodes if any(call_name(c) == "callback" for c in n.calls())]
     # ... unless stop() is what is running this handler (it cancelled the processor the shutdown was waiting for)
-    r.check(bool(stops) and fire and not case_reach(cok, "", "", {}, False, {n.id for n in fire}, avoid=set(stops)) and all(
+    # ... or the consumer has been stopped meanwhile: the case examined is "started and no stop() in progress"
+    def _started_not_stopping(test, p_, case_cls, anc, stopping, env=None):
+        def leaf(t):
+            tx = norm(t)
+            if tx == "self._stopping":
+                return False
+            if tx in ("self._start_d is not None", "self._start_d"):
+                return True
+            if tx in ("self._start_d is None", "not self._start_d"):
+                return False
+            return None
+        return tri_eval(test, leaf, env)
+    r.check(bool(stops) and fire and not case_reach(cok, "", "", {}, False, {n.id for n in fire}, flag_eval=_started_not_stopping, avoid=set(stops)) and all(
         norm(c.args[0]) == "self._last_processed_offset" for n in fire for c in n.calls() if call_name(c) == "callback"),
         "%s#stop-then-fire" % ok_s.qname, "shutdown success does not stop() before firing with the last processed offset",
         where(ok_s, ok_s.node))
@@ -669,8 +691,9 @@ def run(ctx):
     # ---- R9 whatever stop() cancels runs its failure-side continuations synchronously, inside stop(): none of them may
     # reach a request to the broker or an invocation of the processor without having looked at the stopping state
     r = ctx.rule("R9", "a failure-side continuation (errback / on-both handler) never reaches a broker request or the processor "
-                       "without a test of `_stopping` / `_start_d` on the way", 8, "C")
-    stop_guards = [("self._stopping", False), ("self._start_d is None", False), ("self._start_d", True), ("not self._start_d", False)]
+                       "without a test of `_stopping` on the way", 8, "C")
+    # (only a test of the stopping flag excludes "stop() is running": `_start_d` is cleared at the very end of stop())
+    stop_guards = [("self._stopping", False)]
 
     def starts_activity(f_, c_):
         nm_, rc_ = call_name(c_), call_recv(c_) or ""
@@ -776,8 +799,8 @@ MUTANTS = [
      "new": "            self._commit_call.cancel()\n", "expect": "C13.R6", "note": "finding F32"},
 
     {"id": "shutdown-step-ignores-stop", "file": "consumer.py",
-     "old": "            if self._stopping:\n                # stop() cancelled what we were waiting for (the processor, or\n",
-     "new": "            if False:\n                # stop() cancelled what we were waiting for (the processor, or\n",
+     "old": "            if self._stopping or self._start_d is None:\n                # stop() cancelled what we were waiting for (the processor, or\n",
+     "new": "            if self._start_d is None:\n                # stop() cancelled what we were waiting for (the processor, or\n",
      "expect": "C13.R9", "note": "finding F30"},
     {"id": "parked-reply-released-on-cancel", "file": "consumer.py",
      "old": "            self._msg_block_d.addCallback(lambda _: self._handle_fetch_response(responses))",
@@ -787,8 +810,14 @@ MUTANTS = [
      "old": "                failure.value.deferred.addBoth(_commit_and_stop)", "new": "                failure.value.deferred.addCallback(_commit_and_stop)",
      "expect": "C13.R5", "note": "finding F27"},
     {"id": "shutdown-success-reenters-stop", "file": "consumer.py",
-     "old": "            if not self._stopping:  # stop() itself may have cancelled the processor\n                self.stop()",
-     "new": "            self.stop()", "expect": "C13.R5", "note": "finding F28"},
+     "old": "            if not self._stopping and self._start_d is not None:\n                self.stop()\n            self._shuttingdown = False  # Shutdown complete\n            d.callback(",
+     "new": "            if self._start_d is not None:\n                self.stop()\n            self._shuttingdown = False  # Shutdown complete\n            d.callback(", "expect": "C13.R5", "note": "finding F28"},
+    {"id": "shutdown-success-stops-stopped-consumer", "file": "consumer.py",
+     "old": "            if not self._stopping and self._start_d is not None:\n                self.stop()\n            self._shuttingdown = False  # Shutdown complete\n            d.callback(",
+     "new": "            if not self._stopping:\n                self.stop()\n            self._shuttingdown = False  # Shutdown complete\n            d.callback(", "expect": "C13.R5", "note": "finding F35"},
+    {"id": "shutdown-step-commits-when-stopped", "file": "consumer.py",
+     "old": "            if self._stopping or self._start_d is None:\n                # stop() cancelled what we were waiting for (the processor, or\n",
+     "new": "            if self._stopping:\n                # stop() cancelled what we were waiting for (the processor, or\n", "expect": "C13.R5", "note": "finding F35"},
 
     {"id": "stop-forgets-retry-call", "file": "consumer.py",
      "old": "        if self._retry_call:\n            if self._retry_call.active():\n                self._retry_call.cancel()\n            self._retry_call = None\n", "new": "", "expect": "C13.R1"},
@@ -808,8 +837,8 @@ MUTANTS = [
      "old": "        if not (self._stopping and failure.check(CancelledError)):\n            if self._start_d:",
      "new": "        if True:\n            if self._start_d:", "expect": "C13.R2"},
     {"id": "shutdown-reenters-stop", "file": "consumer.py",
-     "old": "            if not self._stopping:  # stop() itself may have cancelled the commit\n                self.stop()",
-     "new": "            self.stop()", "expect": "C13.R2"},
+     "old": "            if not self._stopping and self._start_d is not None:\n                self.stop()\n            self._shuttingdown = False  # Shutdown complete\n            d.errback(",
+     "new": "            self.stop()\n            self._shuttingdown = False  # Shutdown complete\n            d.errback(", "expect": "C13.R2"},
     {"id": "retry-fetch-unguarded", "file": "consumer.py",
      "old": "        if self._stopping or self._shuttingdown or self._start_d is None:\n            # Stopping, or stopped already? No more fetching.\n            return\n",
      "new": "", "expect": ["C13.R3", "C13.R5"]},
@@ -822,8 +851,8 @@ MUTANTS = [
      "old": "        if self._processor_d:\n            self._processor_d.addCallback(_commit_and_stop)\n        else:\n            # No need to wait for the processor, we can commit and stop now\n            _commit_and_stop(None)",
      "new": "        _commit_and_stop(None)", "expect": "C13.R5"},
     {"id": "shutdown-fire-before-stop", "file": "consumer.py",
-     "old": "            if not self._stopping:  # stop() itself may have cancelled the processor\n                self.stop()\n            self._shuttingdown = False  # Shutdown complete\n            d.callback(self._last_processed_offset)",
-     "new": "            d.callback(self._last_processed_offset)\n            if not self._stopping:  # stop() itself may have cancelled the processor\n                self.stop()\n            self._shuttingdown = False  # Shutdown complete",
+     "old": "            if not self._stopping and self._start_d is not None:\n                self.stop()\n            self._shuttingdown = False  # Shutdown complete\n            d.callback(self._last_processed_offset)",
+     "new": "            d.callback(self._last_processed_offset)\n            if not self._stopping and self._start_d is not None:\n                self.stop()\n            self._shuttingdown = False  # Shutdown complete",
      "expect": "C13.R5"},
     {"id": "shutdown-in-progress-skips-final-commit", "file": "consumer.py",
      "old": "                failure.value.deferred.addBoth(_commit_and_stop)", "new": "                failure.value.deferred.addBoth(_handle_shutdown_commit_success)",
